@@ -221,13 +221,15 @@ func TestVerif_C18(t *testing.T) {
 			} else {
 				src = &smtp.SMTPError{Code: ve.code, EnhancedCode: smtp.EnhancedCode{e[0], e[1], e[2]}, Message: ve.msg}
 			}
-			stored := toSMTPErr(src)
+			stored := VerifToSMTPErr(src)
 			meta.RcptErrs[rc] = stored
 			ve = vErr{stored.Code, [3]int{stored.EnhancedCode[0], stored.EnhancedCode[1], stored.EnhancedCode[2]}, stored.Message}
 			errsOf[rc] = ve
 			if r.chance(35) {
 				o := vOrig18[r.intn(len(vOrig18))]
-				if !utf8 && !address.IsASCII(o) {
+				// (an address the report cannot represent makes the generation fail half way: kept for
+				// a third of the cases so that the next report follows a failed one)
+				if !utf8 && !address.IsASCII(o) && !r.chance(33) {
 					o = vOrig18[0]
 				}
 				meta.MsgMeta.OriginalRcpts[rc] = o
